@@ -34,11 +34,14 @@ ANCHORS = [(_BC, "consecutive_combinations"), (_BC, "nan_combinations"), (_BC, "
 DECIDING_ANCHORS = [(_BC, "nan_combinations"), (_BC, "BaseCarver._test_viability")]
 REQUIRED_WRAPS = ["_get_best_association", "_test_viability"]
 EXHAUSTIVE = {"quick": True, "thorough": True}
-EXHAUSTIVE_NOTE = "exhaustive only for the count-palette grid (k=3 quick; k=3,4 thorough), random elsewhere"
+EXHAUSTIVE_NOTE = "exhaustive only for the count-palette grids (k=3 quick; k=3,4 thorough; plus k=3 with a missing-value bucket), random elsewhere"
 PALETTE = [(8, 2), (6, 4), (4, 6), (16, 4), (5, 5)]
 N_RANDOM = {"quick": 700, "thorough": 20000}
 REQUIRED_COUNTERS = {"quick": {"tag:two_stage": 30, "tag:with_dev": 50, "tag:exact_rate_tie": 20, "tag:dropped_ok": 5},
                      "thorough": {"tag:two_stage": 300, "tag:with_dev": 500, "tag:exact_rate_tie": 200, "tag:dropped_ok": 50}}
+
+
+NAN_PALETTE = [(6, 4), (8, 2), (5, 5)]
 
 
 def grid(tier):
@@ -47,7 +50,13 @@ def grid(tier):
         for assign in itertools.product(range(len(PALETTE)), repeat=k):
             for sort_by in ("tschuprowt", "cramerv"):
                 for mnm in (2, 3, 4):
-                    out.append((k, assign, sort_by, mnm))
+                    out.append((k, assign, sort_by, mnm, None))
+    # the same grid with a missing-value bucket (two-stage search with exact ties); k=3 only
+    for assign in itertools.product(range(len(PALETTE)), repeat=3):
+        for nan_a in range(len(NAN_PALETTE) if tier != "quick" else 2):
+            for sort_by in ("tschuprowt", "cramerv"):
+                for mnm in ((3, 4) if tier == "quick" else (2, 3, 4)):
+                    out.append((3, assign, sort_by, mnm, nan_a))
     return out
 
 
@@ -69,12 +78,16 @@ def min_nontrivial(tier):
 
 
 def grid_case(spec):
-    k, assign, sort_by, mnm = spec
+    k, assign, sort_by, mnm, nan_a = spec
     names = ["m", "c", "x", "a", "k"][:k]  # ranking deliberately not alphabetical
     vals, ys = [], []
     for name, a in zip(names, assign):
         n0, n1 = PALETTE[a]
         vals += [name] * (n0 + n1)
+        ys += [0] * n0 + [1] * n1
+    if nan_a is not None:
+        n0, n1 = NAN_PALETTE[nan_a]
+        vals += [np.nan] * (n0 + n1)
         ys += [0] * n0 + [1] * n1
     c = gen.Case()
     c.kind = "binary"
@@ -83,7 +96,7 @@ def grid_case(spec):
     c.ordinal = ["f"]
     c.values_orders = {"f": list(names)}
     c.config = {"min_freq": 0.05, "max_n_mod": mnm, "dropna": True, "output_dtype": "float", "copy": True, "min_freq_mod": None, "sort_by": sort_by}
-    c.meta = {"grid": {"k": k, "counts": [PALETTE[a] for a in assign]}, "ftype": "ord"}
+    c.meta = {"grid": {"k": k, "counts": [PALETTE[a] for a in assign], "nan_counts": None if nan_a is None else NAN_PALETTE[nan_a]}, "ftype": "ord"}
     return c
 
 
